@@ -28,7 +28,7 @@ Definition pipeline (fuel : nat) (dev_name : string) (d0 : device) : pverdict :=
   match Names.names_unique d with
   | Some e => PReject e
   | None =>
-  match Enum.enum_values_check_fixed d with
+  match Enum.enum_values_check_repaired d with   (* the pass as it is now: D12, D16, D17 repaired *)
   | Enum.VErr e => PReject e
   | Enum.VPanic => PPanic "enum"
   | Enum.VOk =>
@@ -39,6 +39,10 @@ Definition pipeline (fuel : nat) (dev_name : string) (d0 : device) : pverdict :=
   match Names.refs_candidates d with
   | (_ :: _) as l => POneOf l
   | [] =>
+  match Names.recursive_block_refs d with        (* end of refs_validated: ensure_no_recursive_block_refs (D11 repaired) *)
+  | Fail _ => PPanic "refs"                       (* never: NamesProofs.recursive_check_total *)
+  | Ok (Some e) => PReject e
+  | Ok None =>
   match Reset.bos_pass d with
   | RErr e => PReject e
   | ROk d1 =>
@@ -56,7 +60,7 @@ Definition pipeline (fuel : nat) (dev_name : string) (d0 : device) : pverdict :=
   | Fail k => PPanic (Addr.show_outcome_kind k)
   | Ok (Some e) => PReject e
   | Ok None => PAccept
-  end end end end end end end end end.
+  end end end end end end end end end end.
 
 Definition show_pverdict (v : pverdict) : string :=
   match v with
